@@ -2,6 +2,7 @@
  * get properties from line structure.
  */
 
+#include <math.h>
 #include <string.h>
 #include <strings.h> /* for strcasecmp() */
 
@@ -68,7 +69,12 @@ static int setPosition(float *val, MPT_INTERFACE(convertable) *src)
 		if (!len) {
 			*val = 0.0f;
 		} else {
-			*val = tmp;
+			float pos = tmp;
+			/* finite value beyond target range */
+			if (isinf(pos) && !isinf(tmp)) {
+				return MPT_ERROR(BadValue);
+			}
+			*val = pos;
 		}
 		return 0;
 	}
